@@ -62,6 +62,11 @@ CHECKS = {
             'A-view projection and a contains-unknown predicate',
             'Held on the executions produced: lenient old peers read the A-view, strict old peers refuse exactly '
             'messages with unknown material, new peers read old messages with new fields at defaults.', '4 C07'),
+    'C09': ('runtime monitoring: python_types output imported in fresh interpreters (every namespace first), exposed '
+            'classes / descriptors / helpers / validator trees / route objects read with dir, getattr and inspect '
+            'and compared with the model; attribute set/get/delete exercised on the real classes',
+            'Held on the executions produced, with one open known finding (union-tag route attributes emitted '
+            'with repr()).', '4 C09'),
 }
 
 PENDING = {}
